@@ -286,6 +286,11 @@ pub fn call_event(c: &Call, global_set: bool) -> Value {
 }
 
 pub fn build_client(cfg: &Cfg, sink: RecSink, ehlog: Arc<Mutex<Vec<Value>>>) -> StatsdClient {
+    // the plain constructor is used whenever nothing but the prefix is configured (every second time)
+    static FLIP: std::sync::atomic::AtomicU64 = std::sync::atomic::AtomicU64::new(0);
+    if cfg.dtags.is_empty() && cfg.dcid.is_none() && !cfg.handler && FLIP.fetch_add(1, std::sync::atomic::Ordering::Relaxed) % 2 == 0 {
+        return StatsdClient::from_sink(&cfg.prefix(), sink);
+    }
     let mut b = StatsdClient::builder(&cfg.prefix(), sink);
     for t in &cfg.dtags {
         b = match &t.k {
